@@ -176,6 +176,7 @@ fn show_tok(t: &Token<'_>) -> String {
 }
 fn show_map(sm: &SourceMap) -> String {
     let toks: Vec<String> = sm.tokens().map(|t| show_tok(&t)).collect();
+    let toks = { let mut t = toks; let m = crate::util::order_marker(&sm); if !m.is_empty() { t.push(m.to_string()); } t };
     let srcs: Vec<String> = (0..sm.get_source_count()).map(|i| show_opt(sm.get_source(i))).collect();
     let names: Vec<String> = sm.names().map(|n| to_hex(n.as_bytes())).collect();
     let conts: Vec<String> = sm.source_contents().map(show_opt).collect();
